@@ -33,6 +33,10 @@ func c13CommonTags(n int) map[string]string {
 	return m
 }
 
+// nanBucketMarker is the sample count reported through a bucket the histogram does not have; whether such a
+// report is dropped or lands somewhere is not specified, so it is left out of the comparison (it must not panic).
+const nanBucketMarker = 777000777
+
 func wantKey(name string, mtype int, count int64, gauge float64, timer int64, tags map[string]string, extra ...string) string {
 	ts := make([]string, 0, len(tags)+len(extra))
 	for k, v := range tags {
@@ -74,6 +78,9 @@ func m3Collect(kind string, dgs [][]byte, tMin, tMax int64) (got []string, claus
 					cl = "timestamp-zero-right-after-construction"
 				}
 				return nil, cl, fmt.Sprintf("metric %q has timestamp %d, reporter constructed at %d, last call at %d", m.Name, m.Timestamp, tMin, tMax)
+			}
+			if m.Value.Count == nanBucketMarker {
+				continue
 			}
 			got = append(got, metricKey(m, false))
 		}
@@ -143,6 +150,8 @@ func c13Alphabet(full bool) []string {
 	} else {
 		a = append(a, "alloc dhist m tags9", "alloc dhist m tags10")
 	}
+	// a bucket that no histogram has (upper bound NaN): asking for it and reporting through it must not panic
+	a = append(a, "nanbucket h0", "nanbucket h1")
 	for h := 0; h < 3; h++ {
 		for v := 0; v < 4; v++ {
 			a = append(a, fmt.Sprintf("report h%d v%d", h, v))
@@ -211,6 +220,16 @@ func c13Run(kind string, ndest, queue, ncommon int, alphabet []string, hist []in
 					h.h = r.AllocateHistogram(c, cloneTags(h.tags), db)
 				}
 				hs = append(hs, h)
+			case "nanbucket":
+				var hi int
+				fmt.Sscanf(b, "h%d", &hi)
+				if hi < len(hs) && hs[hi].h != nil {
+					if hs[hi].kind == "vhist" {
+						hs[hi].h.ValueBucket(0, math.NaN()).ReportSamples(nanBucketMarker)
+					} else {
+						hs[hi].h.DurationBucket(0, -12345).ReportSamples(nanBucketMarker)
+					}
+				}
 			case "report":
 				var hi, vi int
 				fmt.Sscanf(b, "h%d", &hi)
